@@ -399,6 +399,9 @@ const TEXTS: &[&str] = &["Renatus", "Re:Zero", "a // b", "上海紅茶館 ～ Ch
 pub fn gen_path(rng: &mut Rng) -> String {
     let mut s = String::new();
     let segs = 1 + rng.below(3);
+    // one path in six carries malformed point tokens (empty, one coordinate missing, surplus colon, not a number, out
+    // of range): the line is rejected part-way through a segment
+    let faulty = rng.chance(1, 6);
     for si in 0..segs {
         if si > 0 {
             s.push('|');
@@ -419,6 +422,11 @@ pub fn gen_path(rng: &mut Rng) -> String {
                 _ => (rng.range(-50, 600), rng.range(-50, 450)),
             };
             last = p;
+            if faulty && rng.chance(1, 4) {
+                s.push('|');
+                s.push_str(*rng.pick(&["", "x", "1:", ":2", "1:2:3", "1:x", "NaN:1", "1e9:1", "2147483648:0", "1;2", " 3:4", "-:-"]));
+                continue;
+            }
             s.push_str(&format!("|{}:{}", p.0, p.1));
         }
     }
